@@ -47,6 +47,7 @@ class Sched:
         self.horizon = horizon
         self.finished = threading.Event()
         self.trace_codes = set()
+        self.trace_files = set()
 
     # ---- thread management -------------------------------------------------------------------------
     def spawn(self, name, fn):
@@ -58,7 +59,7 @@ class Sched:
             try:
                 if not self.abort:
                     t.started = True
-                    if self.trace_codes:
+                    if self.trace_codes or self.trace_files:
                         sys.settrace(self._tracer)
                     fn()
             except Abort:
@@ -100,8 +101,12 @@ class Sched:
         for f in funcs:
             add(f.__code__)
 
+    def trace_file(self, *filenames):
+        """Make every source line of every function defined in these files a scheduling point."""
+        self.trace_files.update(filenames)
+
     def _tracer(self, frame, event, arg):
-        if frame.f_code in self.trace_codes:
+        if frame.f_code in self.trace_codes or frame.f_code.co_filename in self.trace_files:
             return self._local
         return None
 
@@ -377,6 +382,36 @@ class ShimPool:
 
 
 # --------------------------------------------------------------------------------------------------------------
+def run_thread_pair(prefix, jobs, trace_files=()):
+    """Two controlled threads A and B running jobs[0]() and jobs[1]() (callables returning a result), with a scheduling point on
+    every source line of the given files. Returns Execution(obs={"results": [a, b], "stuck": bool})."""
+    S = Sched(prefix, max_timeouts=0)
+    set_current(S)
+    S.trace_file(*trace_files)
+    results = [None, None]
+
+    def wrap(i):
+        def job():
+            try:
+                results[i] = jobs[i]()
+            except Abort:
+                raise
+            except BaseException as e:  # noqa
+                results[i] = ("raised", type(e).__name__, str(e)[:100])
+        return job
+
+    def main():
+        S.spawn("B", wrap(1))
+        S.point("spawned")
+        wrap(0)()
+
+    try:
+        ok = S.start("A", main)
+    finally:
+        set_current(None)
+    return S.execution({"results": results, "stuck": (not ok) or S.deadlock or S.livelock, "trace": S.trace})
+
+
 def selftest():
     """Differential conformance of the shims against queue.Queue(maxsize=1) and a real ThreadPoolExecutor future
     over every sequential operation sequence up to depth 5 / every legal call sequence."""
